@@ -13,6 +13,7 @@ import (
 	"regexp"
 	"strings"
 	"sync"
+	"sync/atomic"
 	"time"
 
 	"verifharness/proc"
@@ -129,6 +130,9 @@ func main() {
 		if !reached("cmp:" + op + ":bool:") {
 			c.Inconclusive("category-not-reached:cmp:"+op+":bool", 1)
 		}
+	}
+	if n := atomic.LoadInt64(&answeredOnSecondAsking); n > 0 {
+		c.Count("calls-unanswered-once-and-answered-when-made-again(load,not-gating)", n)
 	}
 	c.Finish()
 }
